@@ -117,6 +117,9 @@ func staleLoopTables(fn *ssa.Function) []loopTable {
 				if clearedInLoop(f, lp, t, ups) {
 					continue
 				}
+				if seenSetOfAccumulator(lp, t, ups) {
+					continue
+				}
 				out = append(out, loopTable{f, t, lp, decision})
 			}
 		}
@@ -319,4 +322,76 @@ func ownIndexOf(lp *loop, v ssa.Value) bool {
 		}
 	}
 	return false
+}
+
+
+// seenSetOfAccumulator: the table is the "already listed" set of a list that is itself built over
+// the whole loop: every update `seen[k] = …` sits in a block that also appends to a list whose
+// value is carried around the loop (a φ of the loop header) or kept in a variable declared before
+// the loop. Set and list have the same lifetime; emptying the set per iteration would list an
+// element twice.
+func seenSetOfAccumulator(lp *loop, t ssa.Value, ups []ssa.Instruction) bool {
+	if _, isMap := t.(*ssa.MakeMap); !isMap || len(ups) == 0 {
+		return false
+	}
+	carried := func(v ssa.Value) bool {
+		// v reaches a φ of the loop header, or is stored into a cell that lives outside the loop
+		seen := map[ssa.Value]bool{}
+		var walk func(v ssa.Value, d int) bool
+		walk = func(v ssa.Value, d int) bool {
+			if d > 6 || seen[v] {
+				return false
+			}
+			seen[v] = true
+			refs := v.Referrers()
+			if refs == nil {
+				return false
+			}
+			for _, r := range *refs {
+				switch x := r.(type) {
+				case *ssa.Phi:
+					if x.Block() == lp.Head {
+						return true
+					}
+					if lp.Blocks[x.Block()] && walk(x, d+1) {
+						return true
+					}
+				case *ssa.Store:
+					if x.Val != v {
+						continue
+					}
+					switch a := x.Addr.(type) {
+					case *ssa.Alloc:
+						if !lp.Blocks[a.Block()] {
+							return true
+						}
+					case *ssa.FreeVar, *ssa.Global:
+						return true
+					}
+				}
+			}
+			return false
+		}
+		return walk(v, 0)
+	}
+	for _, u := range ups {
+		mu, ok := u.(*ssa.MapUpdate)
+		if !ok {
+			return false
+		}
+		found := false
+		for _, in := range mu.Block().Instrs {
+			call, isCall := in.(*ssa.Call)
+			if !isCall || builtinName(call.Common()) != "append" {
+				continue
+			}
+			if carried(call) {
+				found = true
+			}
+		}
+		if !found {
+			return false
+		}
+	}
+	return true
 }
